@@ -34,7 +34,7 @@ fn vp_of(x: &Sx) -> ValueParser {
 }
 
 /// environment variables set for the duration of one case
-pub struct EnvGuard(Vec<String>);
+pub struct EnvGuard(pub Vec<String>);
 impl Drop for EnvGuard {
     fn drop(&mut self) {
         for k in &self.0 {
@@ -147,6 +147,7 @@ pub fn build_arg(items: &[Sx], env: &mut EnvGuard) -> Arg {
             "r_unless_all" => a.required_unless_present_all(l.iter().map(s).collect::<Vec<_>>()),
             "groups" => a.groups(l.iter().map(s).collect::<Vec<_>>()),
             "help" => a.help(s(&l[0])),
+            x if x.starts_with("x-") => a, // extension items of other areas (see build_cmd_with)
             x => panic!("arg item {x}"),
         };
     }
@@ -170,6 +171,18 @@ fn build_group(items: &[Sx]) -> ArgGroup {
 }
 
 pub fn build_cmd(items: &[Sx], env: &mut EnvGuard) -> Command {
+    build_cmd_with(items, env, &|a, _| a, &|c, _| c)
+}
+
+/// `build_cmd` with extension callbacks: `arg_ext(arg, items of the arg)` and
+/// `cmd_ext(command, items of the command)` are applied after the standard items; spec items
+/// whose head starts with `x-` are ignored by the standard builder and left to the callbacks.
+pub fn build_cmd_with(
+    items: &[Sx],
+    env: &mut EnvGuard,
+    arg_ext: &dyn Fn(Arg, &[Sx]) -> Arg,
+    cmd_ext: &dyn Fn(Command, &[Sx]) -> Command,
+) -> Command {
     let mut c = Command::new(s(&items[0]));
     for it in &items[1..] {
         let l = it.args();
@@ -229,13 +242,14 @@ pub fn build_cmd(items: &[Sx], env: &mut EnvGuard) -> Command {
                 c
             }
             "ext" => c.external_subcommand_value_parser(vp_of(&l[0])),
-            "arg" => c.arg(build_arg(l, env)),
+            "arg" => c.arg(arg_ext(build_arg(l, env), l)),
             "group" => c.group(build_group(l)),
-            "sub" => c.subcommand(build_cmd(l[0].args(), env)),
+            "sub" => c.subcommand(build_cmd_with(l[0].args(), env, arg_ext, cmd_ext)),
+            x if x.starts_with("x-") => c,
             x => panic!("cmd item {x}"),
         };
     }
-    c
+    cmd_ext(c, items)
 }
 
 pub fn kind_name(k: ErrorKind) -> &'static str {
